@@ -11,3 +11,28 @@ META["C19"] = {
             "held on what was enumerated, not a proof for larger maps.",
     "note": "Trusted: std BTreeMap and DefaultHasher; the four-slot universe mixes numeric, fresh and named slots; larger maps only sampled.",
 }
+
+META["C01"] = {
+    "technique": "reference-oracle monitor: real EGraph::eq / slots vs brute-force ground congruence closure on generated histories",
+    "design_ref": "DESIGN.md §3.4, §4 C01",
+    "text": "Every eq answer and every returned slot set is compared, after every operation of thousands of generated add/union histories "
+            "(symmetry, redundancy, self-reference and shadowing families), with an independent ground congruence closure; an 'e-graph equal, oracle "
+            "unequal' answer or a dropped slot the oracle says the term depends on is a violation. Held on the histories explored (small terms, <=4 names).",
+    "note": "Trusted: the 150-line ground closure and its pool-size argument (re-decided at a larger pool before reporting); histories are small.",
+}
+META["C02"] = {
+    "technique": "reference-oracle monitor: brute-force ground congruence closure vs EGraph::eq after every union",
+    "design_ref": "DESIGN.md §3.4, §4 C02",
+    "text": "Same executions as C01, opposite direction: every equality the ground closure derives (asserted pairs, redundancy-only consequences, "
+            "argument symmetries, symmetries exchanging a redundant with a non-redundant slot, self-referential equations) must be reported by eq "
+            "immediately after the union returned, every provably redundant slot must be dropped, and no add/union may panic. Oracle derivations are sound at any pool size.",
+    "note": "Trusted: soundness of the ground closure's derivations; coverage limited to small histories.",
+}
+META["C08"] = {
+    "technique": "invariant hooks at quiescent points (after every public call) under hostile generated operation sequences, default and checks builds",
+    "design_ref": "DESIGN.md §4 C08",
+    "text": "Hostile mixed histories (inserts, hand-built nodes, unions, rewriting incl. substitution rules, extraction, matching) run against the real "
+            "crate in the default and the checks build; after every call the built-in check() and the structural invariants of the statement are "
+            "evaluated and the work lists must be empty (hook). A panic or a violated invariant is a violation; held on the sequences explored.",
+    "note": "Trusted: the invariant formulations in harness/src/sym.rs; explanations builds are monitored under C07, not here (the statement names the default and the checks build).",
+}
